@@ -293,7 +293,7 @@ fn extra_letters() -> Vec<Letter> {
 
 pub fn run(ctx: &Ctx) -> i32 {
     let shared = Shared::new("C18", ctx);
-    let dq = if ctx.quick() { 2 } else { 3 };
+    let dq = if ctx.quick() { 3 } else { 4 };
     let mut al = alpha::flow(2, &[0, 100, 300], Rich::Base);
     al.extend(extra_letters());
     explore(ctx, &format!("FLOW + legacy/comment/metadata/aux/output/demand letters, integer and 2-decimal values, depth<={dq}"), Wide { alphabet: al, bases: alpha::bases(false), max_add: dq, repeat: false }, C18 { cli: false }, shared.clone());
